@@ -603,6 +603,86 @@ where
     total
 }
 
+/// a^k followed by every tail of two or three symbols (k = 1..=130): what sits right behind a run
+/// whose length puts it on a chunk boundary - "the last thing the fast path saw" handed over to
+/// the slow path. And two runs at once: [p] a^i s b^j s c for all i, j up to 40.
+pub fn run_tails_and_two_runs<F>(sigma: &[char], f: F) -> Stats
+where
+    F: Fn(&str, &mut Stats) + Sync,
+{
+    let t: Vec<char> = sigma.iter().take(6).copied().collect();
+    let heads: Vec<char> = sigma.iter().take(3).copied().collect();
+    let mut tails: Vec<String> = Vec::new();
+    for &x in &t {
+        for &y in &t {
+            tails.push([x, y].iter().collect());
+            for &z in &t {
+                tails.push([x, y, z].iter().collect());
+            }
+        }
+    }
+    let jobs: Vec<(char, usize)> = heads.iter().flat_map(|a| (0..130usize.div_ceil(10)).map(move |b| (*a, b * 10))).collect();
+    let mut shards: Vec<Stats> = jobs
+        .par_iter()
+        .map(|&(a, lo)| {
+            let mut st = Stats::default();
+            let mut s: String = std::iter::repeat(a).take(lo).collect();
+            for _k in (lo + 1)..=(lo + 10) {
+                s.push(a);
+                let base = s.len();
+                for tl in &tails {
+                    s.push_str(tl);
+                    st.states += 1;
+                    st.transitions += 1;
+                    f(&s, &mut st);
+                    s.truncate(base);
+                }
+            }
+            st
+        })
+        .collect();
+    // two runs: separators from the first six symbols, run symbols = the first two
+    if heads.len() >= 2 {
+        let (a, b) = (heads[0], heads[1]);
+        let seps: Vec<char> = t.clone();
+        let more: Vec<Stats> = (0..=40usize)
+            .into_par_iter()
+            .map(|i| {
+                let mut st = Stats::default();
+                for j in 0..=40usize {
+                    for &sp in &seps {
+                        for lead in [false, true] {
+                            let mut s = String::new();
+                            if lead {
+                                s.push(sp);
+                            }
+                            for _ in 0..i {
+                                s.push(a);
+                            }
+                            s.push(sp);
+                            for _ in 0..j {
+                                s.push(b);
+                            }
+                            s.push(sp);
+                            s.push(a);
+                            st.states += 1;
+                            st.transitions += 1;
+                            f(&s, &mut st);
+                        }
+                    }
+                }
+                st
+            })
+            .collect();
+        shards.extend(more);
+    }
+    let mut total = Stats::default();
+    for s in shards {
+        total.merge(s);
+    }
+    total
+}
+
 /// The structural families every string-level check runs on top of its tree and sweep: pumped
 /// runs, ASCII blocks over two fillers and sparse blocks over the check's alphabet - each at
 /// every placement of the tier - plus the long pumped runs (unplaced).
@@ -633,6 +713,7 @@ where
     let first: Vec<char> = sigma.iter().take(3).copied().collect();
     let pairs: Vec<(char, char)> = first.iter().flat_map(|a| first.iter().map(move |b| (*a, *b))).collect();
     st.merge(run_all_lengths(&pairs, tier.pick(4200, 8400), &f));
+    st.merge(run_tails_and_two_runs(sigma, &f));
     st.add("family:placed_strings", placed.len() as u64);
     st.add("family:placements", placements(tier).len() as u64);
     st
